@@ -802,6 +802,21 @@ pub fn main(args: &Args) {
         Lit::Other(" = r\"raw\"".into()),
         Lit::Other(" = r#\"ra\"w\"#".into()),
         Lit::Other(" = \"esc\\n\\t\\u{1F600}\\\\\"".into()),
+        // strings are taken as they stand: nothing is trimmed, cleaned up or re-cased
+        Lit::Other(" = \"a//b\"".into()),
+        Lit::Other(" = \"a/./b\"".into()),
+        Lit::Other(" = \"out/\"".into()),
+        Lit::Other(" = \"out/.\"".into()),
+        Lit::Other(" = \"//server/share\"".into()),
+        Lit::Other(" = \"./x/../y\"".into()),
+        Lit::Other(" = \" padded \"".into()),
+        Lit::Other(" = \"C:\\\\dir\\\\\"".into()),
+        Lit::Other(" = \"TRUE\"".into()),
+        Lit::Other(" = \"Yes\"".into()),
+        Lit::Other(" = \"on\"".into()),
+        Lit::Other(" = yes".into()),
+        Lit::Other(" = on".into()),
+        Lit::Other(" = high".into()),
         Lit::Other(" = a::b".into()),
         Lit::Other(" = 1 + 2".into()),
         Lit::Other(" = [1]".into()),
